@@ -420,7 +420,8 @@ class X12Reader(X12Base):
             if line.startswith(' '):
                 err_str = 'Segment contains a leading space'
                 self._seg_error('1', err_str, None, src_line=self.cur_line + 1)
-                line = line.lstrip()
+                # blanks (and line breaks among them) only: a tab or a control character may be a separator or belong to the value
+                line = line.lstrip(' \r\n')
             if line and line[-1] == self.ele_term:
                 err_str = 'Segment contains trailing element terminators'
                 self._seg_error('SEG1', err_str, None, src_line=self.cur_line + 1)
